@@ -78,6 +78,21 @@ Definition hex1 (a : Z) : bool := (0 <=? a) && (a <? 16).
 Definition f_cube3 (a b c : Z) : desc :=                       (* f"#{a:x}{b:x}{c:x}" *)
   if hex1 a && hex1 b && hex1 c then DCube (a * 256 + b * 16 + c) else DBad.
 
+(* outcome of the constructor: the exception class and, for AttrSpecError, which raise statement:
+   1 setting specified more than once, 2 unrecognised colour in foreground, 3 more than one colour,
+   4 unrecognised colour in background, 5 requires more colours than specified, 6 invalid number of
+   colours; 0 = an exception that escaped from a lower-level function *)
+Inductive res (A : Type) := ROk (a : A) | RErr (e : errkind) (why : Z).
+Arguments ROk {A} a.
+Arguments RErr {A} e why.
+Definition lift {A} (r : result A) : res A := match r with Ok a => ROk a | Err e => RErr e 0 end.
+Definition rbind {A B} (r : res A) (f : A -> res B) : res B :=
+  match r with ROk a => f a | RErr e w => RErr e w end.
+
+Definition b2z (b : bool) : Z := if b then 1 else 0.
+(* a table entry (r, g, b) as three components of get_rgb_values *)
+Definition opt3 (t : Z * Z * Z) : list (option Z) := let '(r, g, b) := t in [Some r; Some g; Some b].
+
 (* total list helpers used by the import-time table computations *)
 Definition nth_d (l : list Z) (i : Z) : Z := match nthz l i with Some v => v | None => 0 end.
 Definition repeat_z (x : Z) (n : Z) : list Z := repeat x (Z.to_nat n).
